@@ -68,6 +68,17 @@ impl C05 {
         let date = day_to_ndt(c.day);
         let start_bus = bus(c.day);
         v.label(c.cal.kind());
+        // the predicates the counts rely on mean what the combination rule says (from the parts)
+        for z in c.day - 7..=c.day + 7 {
+            let (mb, ms) = c.cal.model_eligibility(z);
+            if bus(z) != mb || settle(z) != ms {
+                v.fail(
+                    "eligibility | is_bus_day / is_settlement differ from the definition by parts",
+                    format!("{}: is_bus_day {} (by parts {}), is_settlement {} (by parts {})", fmt_day(z), bus(z), mb, settle(z), ms),
+                );
+                return;
+            }
+        }
         macro_rules! walk {
             ($e:expr) => {
                 match $e {
@@ -294,7 +305,7 @@ impl Property for C05 {
     }
     fn assumptions(&self) -> Vec<String> {
         vec![
-            "is_bus_day / is_settlement of the calendar object are ground truth (C06/C07)".into(),
+            "is_bus_day of a plain calendar (a leaf) is ground truth for built-in parts (C07); the combination rule is re-derived from the parts on the fortnight around the start date".into(),
             "lag(non-business date, 0, settlement=true): the documentation promises only a forward roll; both the first business day and the first settleable business day are accepted".into(),
         ]
     }
